@@ -500,6 +500,27 @@ class _Run:
                 self.judge(cls, data, "wire-type-substitution", "same+verbatim", base, occ,
                            detail=f"field {fi.name} (#{fi.number}, {fi.proto_type}{' repeated' if fi.repeated else ''}) sent with wire type {wt};")
                 stats["fault:wire-type-substitution"] += 1
+        # (i) the same one level down: a FITTING occurrence of a message / wrapper / map field whose payload
+        #     carries inner field numbers under non-fitting wire types.  The result may legitimately differ
+        #     from the base (the occurrence replaces / adds to the field), so only M1-M3 are judged - in
+        #     particular every value must still have its declared Python type.
+        for fi in ci.fields:
+            if wire.LEN not in declared_wire_types(fi) or not (fi.is_map or fi.proto_type == "message"):
+                continue
+            inner_nums = [1, 2]
+            if fi.proto_type == "message" and isinstance(fi.py_cls, type) and issubclass(fi.py_cls, betterproto.Message) and not fi.wraps:
+                inner_nums = [f2.number for f2 in class_info(fi.py_cls).fields][:6] or [1]
+            for num in inner_nums[: 1 + tape.draw(3, "nested-sub-n")]:
+                wt = tape.choice([wire.VARINT, wire.I64, wire.LEN, wire.I32], "nested-sub-wt")
+                inner = wire.tag(num, wt) + self.wellformed_payload(wt)
+                if tape.draw(2, "nested-sub-twice"):
+                    wt2 = tape.choice([wire.VARINT, wire.I64, wire.LEN, wire.I32], "nested-sub-wt2")
+                    inner += wire.tag(tape.choice(inner_nums, "nested-sub-num2"), wt2) + self.wellformed_payload(wt2)
+                occ = wire.f_len(fi.number, inner)
+                at = bounds[tape.draw(len(bounds), "ins-at")]
+                self.judge(cls, enc[:at] + occ + enc[at:], "nested-wire-type-substitution", "any",
+                           detail=f"field {fi.name} (#{fi.number}) carrying inner field #{num} with wire type {wt};")
+                stats["fault:nested-wire-type-substitution"] += 1
         known = [fi.number for fi in ci.fields] or [1]
         # (d) illegal tags
         for wt in (6, 7):
@@ -569,7 +590,8 @@ class CorruptSim(Simulator):
                        "(encodings <= 128 B), replacement of every tag byte and every length byte at every nesting depth "
                        "(structured alternatives + 6 drawn; all 255 in the thorough tier for encodings <= 40 B), the last byte of "
                        "every nested-message / map-entry / packed payload (dangling continuation bit), every "
-                       "known field re-sent under every non-fitting legal wire type, wire types 6/7, field number 0, "
+                       "known field re-sent under every non-fitting legal wire type (also one level down, inside message / wrapper / "
+                       "map-entry payloads), wire types 6/7, field number 0, "
                        "proto2 groups colliding with known numbers, over-long varints, lengths past the end / 2^63, "
                        "random strings and 1-3-flip sequences. Every mutated input is decoded through parse, every third one also through a "
                        "rotating other entry point (FromString, load, load SIZE_DELIMITED).")
